@@ -539,6 +539,8 @@ def _labels(case):
 
 
 CATALOGUE = [
+    [["register", 0, "x", False, False], ["foreign_register", 0], ["register", 0, "x", False, False], ["call", "x"], ["registered"]],
+    [["register", 1, "x", False, True], ["foreign_register", 1], ["register", 1, "x", False, False], ["foreign_unregister", 1], ["register", 1, "x", False, True], ["call", "x"]],
     [["register", 2, "x", False, False], ["give", 2], ["call", "x"], ["uri", 2], ["give_marshal", 2], ["give", 2], ["unregister_obj", 2], ["give", 2]],
     [["register", 2, None, False, True], ["give", 2], ["call", "gen0"], ["registered"]],
     [["register", 0, "x", False, False], ["give", 0], ["give_marshal", 0], ["give", 0], ["uri", 0], ["call", "x"], ["registered"]],
